@@ -139,9 +139,11 @@ theorem C15_headers_named_and_string_typed (ev : Event) :
       kContentType, hEventType, hMessageType, hContentType, tOctet, tTextXml, vOctet, vTextXml]
 
 /-- header clause, errors: an `Err(S3Error)` item becomes a message with `:message-type = error`, `:error-code` =
-    the error's code, `:error-message` = its message (empty when it has none), string typed, no payload -/
+    the error's code, `:error-message` = its message (empty when it has none) — each cut to a string header's
+    capacity by `truncate_header_value` (the identity up to 65 535 bytes) — string typed, no payload -/
 theorem C15_error_headers (e : S3Err) :
-    errorHeadersOk e.code (e.message.getD []) (toDecoded (requestLevelError e)).headers ∧
+    errorHeadersOk (truncateHeaderValue e.code) ((e.message.map truncateHeaderValue).getD [])
+      (toDecoded (requestLevelError e)).headers ∧
     (toDecoded (requestLevelError e)).payload = [] := by
   refine ⟨⟨?_, rfl, ?_, ?_, ?_⟩, rfl⟩ <;>
     simp [allStringTyped, toDecoded, requestLevelError, hdr, strHeader, List.filter, kMessageType, kErrorCode,
@@ -189,35 +191,63 @@ theorem C15_event_always_framed (crc32 : Bytes → Nat) (ev : Event)
                     vEnd, vEvent, vProgress, vRecords, vStats, vTextXml, vOctet] at h ⊢
                   omega)
 
-/-- the full statement for errors — every `Err(S3Error)` item is framed — is FALSE of the model (and of the
-    code): see `S3V.Findings.C15` -/
-def C15_error_always_framed_full : Prop :=
-  ∀ (crc32 : Bytes → Nat) (e : S3Err), ∃ b, eventIntoBytes crc32 (.error e) = .ok b
+/-- `truncate_header_value`: text of at most 65 535 bytes is unchanged; otherwise the result is a prefix of the
+    text, at most 65 535 bytes long, ending at a character boundary (not inside a multi-byte sequence) -/
+theorem C15_error_text_truncation (s : Bytes) :
+    (s.length ≤ 65535 → truncateHeaderValue s = s) ∧ (truncateHeaderValue s).length ≤ 65535 ∧
+    truncateHeaderValue s <+: s ∧ isCharBoundary s (truncateHeaderValue s).length = true :=
+  ⟨truncateHeaderValue_eq_self s, truncateHeaderValue_length_le s, truncateHeaderValue_prefix s,
+    truncateHeaderValue_boundary s⟩
 
-/-- errors are framed unless code or message exceeds 65535 bytes (`errorTooLong`, the excluded region) -/
-theorem C15_error_always_framed_partial (crc32 : Bytes → Nat) (e : S3Err) (h : errorTooLong e = false) :
+/-- FULL (since f8c01e3): every `Err(S3Error)` item is framed, whatever its code and message -/
+theorem C15_error_always_framed (crc32 : Bytes → Nat) (e : S3Err) :
     ∃ b, eventIntoBytes crc32 (.error e) = .ok b := by
   apply (C15_serialize_ok_iff_sizesOk crc32 _).mpr
-  simp [errorTooLong] at h
   rw [sizesOk_iff]
+  have h1 := truncateHeaderValue_length_le e.code
+  have h2 : ((e.message.map truncateHeaderValue).getD []).length ≤ 65535 := by
+    cases e.message with
+    | none => simp
+    | some m => simpa using truncateHeaderValue_length_le m
   constructor
   · simp [itemMessage, requestLevelError, hdr, hErrorCode, hErrorMessage, hMessageType, vError]; omega
   · simp [itemMessage, requestLevelError, hdrSize, hdr, hErrorCode, hErrorMessage, hMessageType, vError,
       payloadBytes]
     omega
 
-/-- … and only then: an over-long code or message makes the byte stream yield an error instead of a frame -/
-theorem C15_error_unframed_iff (crc32 : Bytes → Nat) (e : S3Err) :
-    (∃ b, eventIntoBytes crc32 (.error e) = .ok b) ↔ errorTooLong e = false := by
-  constructor
-  · intro hb
-    have := (C15_serialize_ok_iff_sizesOk crc32 _).mp hb
-    rw [sizesOk_iff] at this
-    have h1 := this.1
-    simp [itemMessage, requestLevelError, hdr] at h1
-    simp [errorTooLong]; omega
-  · exact C15_error_always_framed_partial crc32 e
+/-- what a client recovers from the frame of an error item: an error message carrying the code and the message,
+    each cut as `C15_error_text_truncation` says -/
+theorem C15_error_recovered (crc32 : Bytes → Nat) (e : S3Err) (b rest : Bytes)
+    (h : eventIntoBytes crc32 (.error e) = .ok b) :
+    ∃ dm, decodeFrame crc32 (b ++ rest) = some (dm, rest) ∧
+      interpret dm = some (.error (truncateHeaderValue e.code) ((e.message.map truncateHeaderValue).getD [])) :=
+  ⟨_, C15_decode_of_serialize_ok crc32 _ b rest h, interpret_item (.error e)⟩
 
-example : errorTooLong ⟨[73, 110, 116, 101, 114, 110, 97, 108], some [111, 111, 112, 115]⟩ = false := by decide
+/-- … hence unchanged code and message whenever both fit a string header -/
+theorem C15_error_recovered_unchanged (crc32 : Bytes → Nat) (e : S3Err) (b rest : Bytes)
+    (hc : e.code.length ≤ 65535) (hm : (e.message.getD []).length ≤ 65535)
+    (h : eventIntoBytes crc32 (.error e) = .ok b) :
+    ∃ dm, decodeFrame crc32 (b ++ rest) = some (dm, rest) ∧
+      interpret dm = some (.error e.code (e.message.getD [])) := by
+  obtain ⟨dm, h1, h2⟩ := C15_error_recovered crc32 e b rest h
+  refine ⟨dm, h1, ?_⟩
+  rw [h2, truncateHeaderValue_eq_self _ hc]
+  cases hmsg : e.message with
+  | none => rfl
+  | some m =>
+    rw [hmsg] at hm
+    simp [truncateHeaderValue_eq_self m (by simpa using hm)]
+
+/-- FULL (stream): a backend stream is framed item by item without ever failing, provided only that every
+    event payload fits the 32-bit total length; errors need no proviso -/
+theorem C15_stream_always_framed (crc32 : Bytes → Nat) (items : List Item)
+    (h : ∀ ev, Except.ok ev ∈ items → (payloadBytes (intoMessage ev)).length + 101 < 4294967296) :
+    ∃ frames : List Bytes, wrapper crc32 items = frames.map .ok := by
+  apply (C15_stream_framed_iff crc32 items).mpr
+  intro it hit
+  apply (C15_serialize_ok_iff_sizesOk crc32 _).mp
+  cases it with
+  | error e => exact C15_error_always_framed crc32 e
+  | ok ev => exact C15_event_always_framed crc32 ev (h ev hit)
 
 end S3V.C15
